@@ -13,7 +13,9 @@
 (*                         filterable themselves but are what providers are  *)
 (*                         built for, so they are looked up)                 *)
 (*     I3 --> P2 (second registry point, filterable or not: g.p2f)          *)
-(* where Q2 is built on g.q2 (P, P2 or both) and the combiner K on g.k.     *)
+(* where Q2 is built on g.q2 (P, P2 or both) and the combiner K on g.k:     *)
+(* parsers only, or MIXED LEVELS - the parser Q1 (of P) together with the   *)
+(* spec P2 consumed directly, as in @combiner(AlphaParser, Specs.beta).     *)
 (* A behaviour is any interleaving of AddFilter(k, pats, mx) and            *)
 (* GetFilters(c).  The REQUIREMENT is kept in eff (what the statement of    *)
 (* C07 says is in force, computed from the registrations alone); the        *)
@@ -68,6 +70,7 @@ Parsers == {"Q1", "Q2"}
 Combs   == {"K"}
 Points  == {"P", "P2"}
 Graphs  == [p2f : BOOLEAN, q2 : {{"P"}, {"P2"}, {"P", "P2"}}, k : {{"Q1"}, {"Q2"}, {"Q1", "Q2"}}]
+             \cup [p2f : BOOLEAN, q2 : {{"P"}}, k : {{"Q1", "P2"}}]      \* mixed levels (Q2 is not involved)
 
 Owner(c)   == IF c \in Inner THEN "I1" ELSE c        \* the implementation an inner datasource belongs to
 PointOf(c) == IF c \in {"I1", "I2", "P", "D1", "D0"} THEN "P" ELSE "P2"
@@ -86,7 +89,7 @@ FirstDs(k, G) ==
     CASE k \in DS  -> {k}
       [] k = "Q1" -> {"P"}
       [] k = "Q2" -> G.q2
-      [] OTHER    -> UNION {IF q = "Q1" THEN {"P"} ELSE G.q2 : q \in G.k}
+      [] OTHER    -> UNION {IF q = "Q1" THEN {"P"} ELSE IF q = "Q2" THEN G.q2 ELSE {q} : q \in G.k}   \* every level
 Targets(k, G) == IF k \in DS THEN {k} ELSE {d \in FirstDs(k, G) : Filterable(d, G)}
 
 (* filters.py:109-134 and 96-103: what add_filter refuses *)
